@@ -866,10 +866,10 @@ Proof.
   induction fuel as [|fuel IH]; intros id path c0 Hsafe Hpath; [discriminate|].
   cbn [safe_path] in Hsafe.
   destruct (lookup r id) as [t|] eqn:El; [|discriminate].
-  apply andb_prop in Hsafe as [Hnp Hdef].
+  destruct (existsb (N.eqb id) path) eqn:Hnp; [discriminate|]. rename Hsafe into Hdef.
   assert (H0 : inprog c0 id = false).
   { destruct (inprog c0 id) eqn:E; [|reflexivity].
-    apply Hpath in E. apply negb_true_iff in Hnp.
+    apply Hpath in E.
     assert (existsb (N.eqb id) path = true) by (apply existsb_exists; exists id; split; [exact E|apply N.eqb_refl]).
     congruence. }
   apply (resolve_step only_words c0 fuel r id t); [right; exact H0|exact El|].
